@@ -168,6 +168,7 @@ def check(pid, tier, seed):
         solver.append({"unit": u, "wall_s": round(r.wall_s, 2), "smt_ms": r.smt_ms,
                        "functions": [{"fn": f.get("function"), "ms": f.get("time"), "rlimit": f.get("rlimit"), "ok": f.get("success")} for f in r.functions]})
     if kres is not None:
+        fns += kres.get("functions", [])
         cmds.append(kres.get("cmd", ""))
         trusted += kres.get("trusted", [])
         solver.append({"unit": "kani", "wall_s": kres.get("wall_s"), "harnesses": kres.get("harness_times", [])})
